@@ -408,6 +408,103 @@ fn region_case(rng: &mut Rng, n_ops: usize, trace: &mut Option<Vec<String>>, st:
     Ok((allocs, growths))
 }
 
+const LT: redb::TableDefinition<u64, &[u8]> = redb::TableDefinition::new("lifecycle");
+
+/// Region life-cycle through the database itself: tiny regions, a table is filled (the file grows
+/// over many regions), emptied and the file shrunk by empty commits (trailing regions are removed
+/// from the allocator and the tracker), then refilled -- several rounds. Judged: no panic, contents,
+/// exact page ownership after every commit, and the refill must not need more file than the first
+/// fill did plus one region (a region with a suitable free block is never reported full).
+fn region_lifecycle_case(seed: u64, case: u64) -> (u64, u64, Option<String>) {
+    use redb::{ReadableDatabase, ReadableTable};
+    let mut rng = Rng::for_case(seed, "C14life", case);
+    let page = 512usize;
+    let region_pages = *rng.pick(&[8u64, 16, 32]);
+    let cfg = crate::world::Cfg { page_size: page, region_pages: Some(region_pages), cache: *rng.pick(&[0usize, 65536, 1 << 20]) };
+    let be = crate::backend::MonBackend::new();
+    let db = match cfg.builder().create_with_backend(be.clone()) {
+        Ok(d) => d,
+        Err(e) => return (0, 0, Some(format!("create: {e}"))),
+    };
+    let n = rng.range(150, 900);
+    let vlen = rng.range(40, 700) as usize;
+    let mut commits = 0u64;
+    let mut max_regions = 0u64;
+    let mut peak_after_fill = 0usize;
+    let r = crate::report::guarded(|| -> Result<(), String> {
+        let account = |what: &str, max_regions: &mut u64| -> Result<(), String> {
+            match crate::own::account(&db, &[]) {
+                Ok(a) => {
+                    *max_regions = (*max_regions).max(a.regions);
+                    Ok(())
+                }
+                Err(e) if e.starts_with("machinery") => Ok(()),
+                Err(e) => Err(format!("{what}: {e}")),
+            }
+        };
+        for round in 0..3u64 {
+            // fill
+            let txn = db.begin_write().map_err(|e| e.to_string())?;
+            {
+                let mut t = txn.open_table(LT).map_err(|e| e.to_string())?;
+                for i in 0..n {
+                    t.insert(i, vec![(i + round) as u8; vlen].as_slice()).map_err(|e| e.to_string())?;
+                }
+            }
+            txn.commit().map_err(|e| e.to_string())?;
+            commits += 1;
+            account("after filling", &mut max_regions)?;
+            let len_now = be.lock().data.len();
+            if round == 0 {
+                peak_after_fill = len_now;
+            } else if len_now > peak_after_fill + 2 * (region_pages as usize + 1) * page {
+                return Err(format!(
+                    "refilling the same {n} x {vlen} bytes after the file had shrunk needs {len_now} bytes of file, the first fill needed {peak_after_fill}: free space in existing regions was not found"
+                ));
+            }
+            // read back
+            {
+                let rt = db.begin_read().map_err(|e| e.to_string())?;
+                let t = rt.open_table(LT).map_err(|e| e.to_string())?;
+                let mut c = 0;
+                for e in t.iter().map_err(|e| e.to_string())? {
+                    let (k, v) = e.map_err(|e| e.to_string())?;
+                    if v.value().len() != vlen || v.value().iter().any(|b| *b != (k.value() + round) as u8) {
+                        return Err(format!("round {round}: key {} holds a value that was not written", k.value()));
+                    }
+                    c += 1;
+                }
+                if c != n {
+                    return Err(format!("round {round}: {c} of {n} keys present"));
+                }
+            }
+            // empty it and let the file shrink
+            let txn = db.begin_write().map_err(|e| e.to_string())?;
+            {
+                let mut t = txn.open_table(LT).map_err(|e| e.to_string())?;
+                t.retain(|_, _| false).map_err(|e| e.to_string())?;
+            }
+            txn.commit().map_err(|e| e.to_string())?;
+            commits += 1;
+            for _ in 0..rng.range(1, 4) {
+                let txn = db.begin_write().map_err(|e| e.to_string())?;
+                txn.commit().map_err(|e| e.to_string())?;
+                commits += 1;
+                account("after an empty commit", &mut max_regions)?;
+            }
+        }
+        Ok(())
+    });
+    let v = match r {
+        Ok(Ok(())) => None,
+        Ok(Err(e)) => Some(e),
+        Err(p) => Some(format!("panic: {}", p.short())),
+    };
+    drop(db);
+    let v = v.or_else(|| be.lock().violations.first().map(|e| format!("backend: {e}")));
+    (commits, max_regions, v.map(|e| format!("region life-cycle ({region_pages}-page regions, {n} x {vlen} B): {e}")))
+}
+
 pub fn run(rep: &Report) {
     rep.set_rule(
         "case = (region capacity, initial size, operation seed): 200-2000 random alloc(order)/alloc_lowest(order)/free/record_alloc/resize/serialize+reload steps on the real BuddyAllocator (through the cfg(redb_verif) wrapper) against a shadow bitmap of order-0 pages: every returned block must be in range and disjoint from live blocks, a refusal is legal only when the shadow has no aligned free block of that order, free() must report a merged block that is entirely free and whose buddy is not, record_alloc must return true exactly for free in-range blocks, counts and trailing_free_pages must match, the independently decoded serialized bytes must match, and for every order 'can allocate' (probed on a reloaded copy) must equal 'aligned free block exists'. Region level: allocations through TransactionalMemory must land in the lowest region with a suitable block and grow the file only when none has one. distinct_nontrivial = distinct cases that saw at least one buddy merge and one refusal",
@@ -428,11 +525,29 @@ pub fn run(rep: &Report) {
     }
     let n_buddy = cases.len() as u64;
     rep.extra("exhaustive", json!(false));
+    let life_cases = match rep.tier {
+        Tier::Quick => 160u64,
+        Tier::Thorough => 4_000u64,
+    };
     run_cases(
         rep,
-        n_buddy + region_cases,
+        n_buddy + region_cases + life_cases,
         |case| {
             let replay = json!({"check": "C14", "seed": rep.seed, "case": case, "tier": rep.tier.name()});
+            if case >= n_buddy + region_cases {
+                let (commits, regions, v) = region_lifecycle_case(rep.seed, case);
+                rep.eval(1);
+                rep.count("lifecycle.cases", 1);
+                rep.count("lifecycle.commits", commits);
+                rep.count_max("max.lifecycle_regions", regions);
+                if regions > 1 {
+                    rep.distinct(mix(case, regions));
+                }
+                if let Some(e) = v {
+                    rep.violation(format!("lifecycle:{}", crate::checks::c01::short_sig(&e)), format!("case {case}: {e}"), replay);
+                }
+                return;
+            }
             let mut rng = Rng::for_case(rep.seed, "C14", case);
             let trace_on = rep.replay_only.is_some() || rep.want_sample();
             let mut trace = if trace_on { Some(vec![]) } else { None };
